@@ -37,6 +37,33 @@ def tree(root: Path):
     return out
 
 
+def read_ini(path):
+    """configparser.ConfigParser(interpolation=None) on the file.
+    parsed: what the public API shows ({section: dict(items)}, DEFAULT if non-empty) - used by the oracle;
+    raw: the parser's own tables in insertion order, defaults NOT merged into the sections
+         ([[section, [[key, value], ...]], ...], DEFAULT listed last if non-empty) - used to validate the ini_read model."""
+    cp = configparser.ConfigParser(interpolation=None)
+    try:
+        cp.read(path, encoding="utf-8")
+    except configparser.Error as e:
+        return {"__error__": type(e).__name__}, {"__error__": type(e).__name__}
+    parsed = {s: dict(cp.items(s)) for s in cp.sections()}
+    if cp.defaults():
+        parsed["DEFAULT"] = dict(cp.defaults())
+    raw = [[s, [[k, v] for k, v in cp._sections[s].items()]] for s in cp.sections()]
+    if cp.defaults():
+        raw.append(["DEFAULT", [[k, v] for k, v in cp.defaults().items()]])
+    return parsed, raw
+
+
+def do_iniread(text):
+    """the reader alone, on an arbitrary text stored as a UTF-8 file (no newline translation on write)"""
+    with tempfile.TemporaryDirectory(prefix="c13r-", dir=os.environ.get("VERIF_SCRATCH")) as d:
+        f = Path(d) / "x.ini"
+        f.write_bytes(text.encode("utf-8"))
+        return read_ini(f)[1]
+
+
 def do_write(src, port, pl, b, libs, pre_existing):
     with tempfile.TemporaryDirectory(prefix="c13-", dir=os.environ.get("VERIF_SCRATCH")) as d:
         parent = Path(d)
@@ -59,17 +86,9 @@ def do_write(src, port, pl, b, libs, pre_existing):
         outside_ok = (parent / "sentinel.txt").read_text() == "keep" and (parent / "other" / "x.txt").read_text() == "x"
         main_bytes = (proj / "src" / "main.cpp").read_bytes()
         ini_text = (proj / "platformio.ini").read_bytes().decode("utf-8")
-        cp = configparser.ConfigParser(interpolation=None)
-        parsed = None
-        try:
-            cp.read(proj / "platformio.ini", encoding="utf-8")
-            parsed = {s: dict(cp.items(s)) for s in cp.sections()}
-            if cp.defaults():
-                parsed["DEFAULT"] = dict(cp.defaults())
-        except configparser.Error as e:
-            parsed = {"__error__": type(e).__name__}
+        parsed, raw = read_ini(proj / "platformio.ini")
         return {"status": "ok", "main_equal": main_bytes == src.encode("utf-8"),
-                "ini": ini_text, "parsed": parsed, "new_entries": [x for x in after if x not in before],
+                "ini": ini_text, "parsed": parsed, "raw": raw, "new_entries": [x for x in after if x not in before],
                 "removed_entries": [x for x in before if x not in after], "outside_ok": outside_ok}
 
 
@@ -84,6 +103,8 @@ def main():
         elif c[0] == "registry":
             out.append({"platforms": {k: sorted(v) for k, v in pio.SUPPORTED_PLATFORMS.items()},
                         "b2p": dict(pio.BOARD_TO_PLATFORM)})
+        elif c[0] == "iniread":
+            out.append(do_iniread(c[1]))
         elif c[0] == "libsec":
             out.append(pio._format_lib_section(c[1]))
         elif c[0] == "envname":
